@@ -142,15 +142,27 @@ pub fn set_rlimit_as(bytes: u64) {
 }
 
 /// Worker loop: regenerates the case list, runs `idx % nshards == shard && idx >= start`.
-pub fn worker_main(prop: &dyn Prop, tier: Tier, seed: u64, shard: usize, nshards: usize, start: usize, out_path: &str, flavour: &str, asan: bool, only_cell: Option<&str>) {
+pub fn worker_main(prop: &dyn Prop, tier: Tier, seed: u64, shard: usize, nshards: usize, start: usize, out_path: &str, flavour: &str, asan: bool, only_cell: Option<&str>, cases_file: Option<&str>) {
   if !asan { set_rlimit_as(8 << 30); }
   install_quiet_panic_hook();
-  let mut cases = prop.gen(tier, seed);
-  if let Some(f) = only_cell { cases.retain(|c| glob(f, &c.cell)); }
+  // the driver writes one case file per shard; a worker streams its own file and never holds more than one case
+  // (without a file, e.g. when started by hand, it generates the cases itself)
+  let cases: Box<dyn Iterator<Item = (usize, Case)>> = match cases_file {
+    Some(path) => {
+      let f = std::fs::File::open(path).expect("open case file");
+      Box::new(std::io::BufReader::new(f).lines().flatten().filter_map(|l| { let v: J = serde_json::from_str(&l).ok()?; Some((v["i"].as_u64()? as usize, serde_json::from_value::<Case>(v["c"].clone()).ok()?)) }))
+    }
+    None => {
+      let mut cases = prop.gen(tier, seed);
+      if let Some(f) = only_cell { cases.retain(|c| glob(f, &c.cell)); }
+      Box::new(cases.into_iter().enumerate().filter(move |(i, _)| i % nshards == shard))
+    }
+  };
   let f = std::fs::OpenOptions::new().create(true).append(true).open(out_path).expect("open worker log");
   let mut w = std::io::BufWriter::new(f);
-  for (idx, case) in cases.iter().enumerate() {
-    if idx % nshards != shard || idx < start { continue; }
+  for (idx, case) in cases {
+    let case = &case;
+    if idx < start { continue; }
     writeln!(w, "{}", json!({"b": idx})).unwrap();
     w.flush().unwrap();
     let t0 = Instant::now();
@@ -261,11 +273,17 @@ fn run_flavour(prop: &dyn Prop, cfg: &DriverCfg, cases: &[Case], flavour: &str, 
   let spawn = |shard: usize, start: usize, log: &str| -> std::process::Child {
     let mut c = std::process::Command::new(&bin);
     c.args(["worker", prop.id(), "--tier", cfg.tier.name(), "--seed", &cfg.seed.to_string(), "--shard", &shard.to_string(), "--nshards", &n.to_string(), "--start", &start.to_string(), "--out", log, "--flavour", flavour]);
-    if let Some(f) = &cfg.only_cell { c.args(["--cell", f]); }
+    c.args(["--cases", &format!("{}/cases-{}.jsonl", work, shard)]);
     c.stdout(std::process::Stdio::null()).stderr(std::process::Stdio::piped()).stdin(std::process::Stdio::null());
     if flavour == "asan" { c.env("ASAN_OPTIONS", format!("detect_leaks=0:abort_on_error=1:halt_on_error=1:log_path={}/asan.{}", work, shard)); }
     c.spawn().expect("spawn worker")
   };
+  // one case file per shard (written once per run, shared by all flavours and replicas)
+  if !std::path::Path::new(&format!("{}/cases-0.jsonl", work)).exists() {
+    let mut files: Vec<std::io::BufWriter<std::fs::File>> = (0..n).map(|s| std::io::BufWriter::new(std::fs::File::create(format!("{}/cases-{}.jsonl", work, s)).expect("create case file"))).collect();
+    for (i, c) in cases.iter().enumerate() { writeln!(files[i % n], "{}", json!({"i": i, "c": c})).unwrap(); }
+    for f in files.iter_mut() { f.flush().unwrap(); }
+  }
   let mut shards: Vec<Option<ShardState>> = Vec::new();
   for s in 0..n {
     let log = format!("{}/{}-{}-{}.jsonl", work, flavour, replica, s);
